@@ -3,6 +3,7 @@
 package c01
 
 import (
+	"go.dedis.ch/kyber/v4"
 	"bytes"
 	"fmt"
 	"math/big"
@@ -351,6 +352,49 @@ func runGroup(c *vf.Check, g *groups.G) {
 			c.Cap(g.Name + ": deadline in distributivity")
 			break
 		}
+	}
+	// the generator and the identity are constants of the group: whatever is done in place to a point object that was
+	// set to Base() or Null() - overwriting it with the identity, a small value, a sum - later Base()/Null() calls and
+	// the multiples of the implicit generator are what they were
+	if g.Base {
+		c.Case(g.Name+": Base()/Null() results overwritten in place", pk+"/generator-stable", func(x *vf.Ctx) {
+			b0 := fmod.Enc(g.Point().Base())
+			o0 := fmod.Enc(g.Point().Null())
+			five := m.Sc(big.NewInt(5))
+			var m5 []byte
+			if g.MulNil {
+				m5 = fmod.Enc(g.Point().Mul(five, nil))
+			}
+			one := g.Point().Base()
+			for step, f := range []func(p kyber.Point){
+				func(p kyber.Point) { p.Null() },
+				func(p kyber.Point) { p.Set(g.Point().Null()) },
+				func(p kyber.Point) { p.Add(p, p) },
+				func(p kyber.Point) { p.Neg(p) },
+				func(p kyber.Point) { p.Sub(p, one) },
+				func(p kyber.Point) { p.Mul(five, p) },
+				func(p kyber.Point) { p.Set(g.Point().Add(one, one)) },
+			} {
+				bp := g.Point().Base()
+				f(bp)
+				np := g.Point().Null()
+				f(np)
+				c.Eval(1)
+				if !bytes.Equal(fmod.Enc(g.Point().Base()), b0) {
+					x.Failf(pk+"/generator-stable", "after in-place operation #%d on a point that had been set to Base(), Base() returns another value", step)
+					return
+				}
+				if !bytes.Equal(fmod.Enc(g.Point().Null()), o0) {
+					x.Failf(pk+"/generator-stable", "after in-place operation #%d on a point that had been set to Null(), Null() returns another value", step)
+					return
+				}
+				if m5 != nil && !bytes.Equal(fmod.Enc(g.Point().Mul(five, nil)), m5) {
+					x.Failf(pk+"/generator-stable", "after in-place operation #%d on Base()/Null() results, Mul(5,nil) returns another value", step)
+					return
+				}
+			}
+		})
+		trans++
 	}
 	c.Count("states", states)
 	c.Count("transitions", trans)
